@@ -30,6 +30,12 @@ def run(ctx):
                                    select=lambda sc: any(s["a"] == "crash" for s in sc["steps"])).run(pool, storelib.default_violation(ctx), cov)
             if st["feats"].get("recover", 0) == 0:
                 raise vlib.Undecided("vacuous: no recovery was replayed")
+        seeds = [ctx.seed * 1000 + i for i in range(4 if ctx.quick() else 32)]
+        agg = storelib.random_runs(ctx, pool, cov, [dict(seed=sd, n=(250 if ctx.quick() else 600), caps=([] if i % 4 else [4, 4]), cache=0, pcrash=0.1, pflush=0.12,
+                                                         wal=False, maxrows=(10 if i % 2 else 30), bias=("grow" if i % 2 == 0 else ""))
+                                                    for i, sd in enumerate(seeds)])
+        if agg["recoveries"] == 0:
+            raise vlib.Undecided("vacuous: no recovery in the random runs")
     finally:
         pool.close()
     drift = sum(c["drift"] for c in cov["configs"])
